@@ -1,44 +1,46 @@
 (* C14 - OgreArc / OgreUnique handles act as shared / unique owners of one pooled value. *)
 From RM Require Import Util RingModel FullSync PoolRun Arc.
 
-(* For every schedule of clone / drop / count / dereference operations on threads 0..T-1 (any T), any initial distribution of
-   the K >= 1 handles created with the value, the invariant RInv holds in every reachable state.  Its clauses are the
-   property:
-   - v_count : references_count = live handles + drops that consumed their handle but did not decrement yet
-               (so, when no clone or drop is in progress, it IS the number of live shared handles);
+(* For every schedule of clone / drop / count / dereference operations - through a handle of the acting thread - and of
+   sclone / scount operations - through a handle the environment keeps alive during the whole run and the threads borrow
+   (`&OgreArc`; p0 = `perm` such handles, 0 or 1 in the harness) - on threads 0..T-1 (any T), any initial distribution of the
+   K >= 1 handles created with the value (h0 over the threads, p0 kept by the environment), the invariant RInv holds in every
+   reachable state.  Its clauses are the property:
+   - v_count : references_count = live handles (the threads' + the borrowed ones) + drops that consumed their handle but did
+               not decrement yet (so, when no clone or drop is in progress, it IS the number of live shared handles);
+   - v_needs : a thread inside a clone / count / dereference is protected by a handle of its own or by the borrowed one;
    - v_last / v_uniq / v_zero / v_freed / v_deallocs : the thread whose decrement read 1 is unique; the slot is returned to
                the pool exactly once, exactly by that thread, and only when no handle and no pending drop is left;
    - v_reads : every dereference through a live handle returns the value written at creation. *)
 Theorem C14_invariant :
-  forall N id T h0 v0 fl0,
-    (forall u, 0 <= h0 u) -> (forall u, (T <= u)%nat -> h0 u = 0) -> 1 <= hsum h0 T ->
+  forall N id T h0 p0 v0 fl0,
+    (forall u, 0 <= h0 u) -> (forall u, (T <= u)%nat -> h0 u = 0) -> 0 <= p0 -> 1 <= hsum h0 T + p0 ->
     forall evs, Forall (fun e => (tid_of_r e < T)%nat) evs ->
-      RInv T (fold_left (rexec N id) evs (rinit T h0 v0 fl0)).
+      RInv T (fold_left (rexec N id) evs (rinit T h0 p0 v0 fl0)).
 Proof. exact rinv_reachable. Qed.
 Print Assumptions C14_invariant.
 
 (* readable corollaries *)
 Theorem C14_count_is_live_handles_when_quiescent :
-  forall T s, RInv T s -> (forall u, rthr s u = RIdle) -> cnt s = hsum (hnd s) T.
-Proof.
-  intros T s I Hq. rewrite (v_count _ _ I).
-  assert (dcount (rthr s) T = 0); [|lia].
-  clear I. induction T as [|k IH]; cbn; [reflexivity|]. rewrite Hq. lia.
-Qed.
+  forall T s, RInv T s -> (forall u, rthr s u = RIdle) -> cnt s = hsum (hnd s) T + perm s.
+Proof. exact count_quiescent. Qed.
 Print Assumptions C14_count_is_live_handles_when_quiescent.
 
 Theorem C14_dealloc_exactly_at_last_drop :
   forall T s, RInv T s ->
     deallocs s = (if freed s then 1 else 0) /\
-    (freed s = true -> cnt s = 0 /\ hsum (hnd s) T = 0) /\
-    (forall u, 1 <= hnd s u -> freed s = false).
-Proof.
-  intros T s I. split; [apply (v_deallocs _ _ I)|]. split.
-  - intros Hf. destruct (v_freed _ _ I Hf) as [H0 _]. split; [assumption|].
-    pose proof (v_count _ _ I). pose proof (dcount_nonneg (rthr s) T). pose proof (hsum_nonneg (hnd s) T (v_nonneg _ _ I)). lia.
-  - intros u Hu. pose proof (cnt_pos_handle T s u I Hu). now destruct (no_after_last T s I H).
-Qed.
+    (freed s = true -> cnt s = 0 /\ hsum (hnd s) T = 0 /\ perm s = 0) /\
+    (forall u, 1 <= hnd s u -> freed s = false) /\
+    (1 <= perm s -> freed s = false).
+Proof. exact dealloc_at_last_drop. Qed.
 Print Assumptions C14_dealloc_exactly_at_last_drop.
+
+(* while the environment holds the borrowed handle - also when it is the sole handle, the threads owning none - the value is
+   not given back to the pool and no thread's decrement has read 1 *)
+Theorem C14_borrowed_handle_keeps_the_value_alive :
+  forall T s, RInv T s -> 1 <= perm s -> freed s = false /\ forall u, after_last (rthr s u) = false.
+Proof. exact perm_keeps_alive. Qed.
+Print Assumptions C14_borrowed_handle_keeps_the_value_alive.
 
 Theorem C14_deref_stable :
   forall T s, RInv T s -> forall t v, In (t, RReadOk v) (rlog s) -> v = val s.
@@ -50,3 +52,23 @@ Example C14_nonvacuous :
   run_arc 4 [2; 1] [[RRead; RDrop; RDrop]; [RClone; RDrop; RDrop]] (repeat 0 4 ++ repeat 1 3 ++ repeat 0 2 ++ repeat 1 8)%nat
   = run_arc 4 [2; 1] [[RRead; RDrop; RDrop]; [RClone; RDrop; RDrop]] (repeat 0 4 ++ repeat 1 3 ++ repeat 0 2 ++ repeat 1 8)%nat.
 Proof. reflexivity. Qed.
+
+(* non-vacuity of the borrowed mode: the borrowed handle is the sole handle, the two threads own none; both sclone it (the two
+   fetch_adds interleave: 1 -> 2 -> 3), thread 0 reads the count through it (line `2 0 52 3 0`: answer 3), both drop their
+   clones (3 -> 2 -> 1): nothing is deallocated - the free list still holds its 3 ids (`9 3`) *)
+Example C14_nonvacuous_borrowed :
+  run_arc_shared 4 [0; 0] [[RSClone; RSCount; RDrop]; [RSClone; RDrop]] [0; 1; 0; 1; 1; 0; 0]%nat
+  = [1; 0; 0; 2; 1; 2; 1;   2; 0; 50; 0; 0;
+     1; 1; 0; 2; 2; 3; 1;   2; 1; 50; 0; 0;
+     1; 0; 0; 0; 3; -1; 1;  2; 0; 52; 3; 0;
+     1; 1; 0; 5; 3; 2; 1;   2; 1; 51; 0; 0;
+     0; 1;
+     1; 0; 0; 5; 2; 1; 1;   2; 0; 51; 0; 0;
+     0; 0;
+     9; 3].
+Proof. vm_compute. reflexivity. Qed.
+(* the same programs without the borrowed handle are refused (`54` = no handle) *)
+Example C14_nonvacuous_not_borrowed :
+  run_arc 4 [0; 0] [[RSClone]; [RSCount]] [0; 1]%nat
+  = [1; 0; 1; 8; 0; -1; 1;  2; 0; 54; 0; 0;   1; 1; 1; 8; 0; -1; 1;  2; 1; 54; 0; 0;  9; 3].
+Proof. vm_compute. reflexivity. Qed.
